@@ -558,7 +558,15 @@ def more_rules(run, db):
     Rw = domw.R
     Aw = lambda nme: Rat(Rw.atom(nme))
     ok = len(res) == 1 and isinstance(res[0].value, OutArr)
+    if not ok:
+        raise AnalysisError('zernike_nm_der_seq: what is returned is not the output array the slots were stored into (%d paths, %r): the wrapper is organised in a way this rule does not read'
+                            % (len(res), res[0].value if res else None))
     detail = ''
+
+    def through_single(rs):
+        # the wrapper is read as "a loop over zernike_nm_der": a slot that holds something that was not obtained from that routine at all
+        # (the derivative assembled again from shared tables) is not read here; a slot that holds zernike_nm_der of OTHER arguments is
+        return all('zder(' in r_.key() for r_ in rs)
     if ok:
         oa = res[0].value
         rows = oa.rows
@@ -572,6 +580,8 @@ def more_rules(run, db):
                 raise AnalysisError('zernike_nm_der_seq: what is stored in slot %d of the output is not followed' % j)
             if any(g is None for g in got) or any(domw.rat(v) is None for vs in parts.values() for v in vs):
                 raise AnalysisError('zernike_nm_der_seq: a value stored in slot %d is not followed' % j)
+            if not through_single(got + [domw.rat(v) for vs in parts.values() for v in vs]):
+                raise AnalysisError('zernike_nm_der_seq: slot %d does not hold a result of zernike_nm_der (the derivatives are assembled another way): not read here' % j)
             if parts and not got:
                 wantp = {k: Rat(Rw.func('part', [want, Rat(Rw.const(k))])) for k in (0, 1)}
                 if not (set(parts) == {0, 1} and all(len(parts[k]) == 1 and domw.rat(parts[k][0]) == wantp[k] for k in (0, 1))):
